@@ -14,6 +14,7 @@ import AlgoVerif.Proofs.C13MinimalFull
 import AlgoVerif.Proofs.C13IsoDFA
 import AlgoVerif.Proofs.C13IsoNFA
 import AlgoVerif.Proofs.C13Results
+import AlgoVerif.Proofs.C13X
 /-!
 # C13 — automata conversions and combinators compute the intended regular languages
 
@@ -417,3 +418,115 @@ theorem C13_chain_accept (nfas : List NFA) (hwf : ∀ n ∈ nfas, n.WF) (w : Wor
 example : let a := NFA.new 0 [0] |>.add 0 97 [0]; let b := NFA.new 0 [1] |>.add 0 98 [1]
     (((NFA.concat [a, b]).toDFA.bind DFA.minimize).map (fun m => (m.accept [97, 97, 98], m.accept [98, 97])))
       = .ok (true, false) := by decide
+
+/-! ## The read-only public API: `Symbols`, `States`, `Next`, `Transitions`
+
+These methods read the same tables the language theorems are about (`Model/C13X.lean` has the Models the older
+file lacks: the exported `NFA.Next` and the two `Transitions()` iterators with their early exit).  `d.δ` is the
+transition function and `n.next` / `n.Δ` the transition relation the languages above are defined from. -/
+
+/-- `DFA.Symbols` and `NFA.Symbols` return the strictly increasing (sorted, duplicate-free) list of the symbols that
+label an entry of the table; the NFA leaves `E` out, the DFA does not. -/
+theorem C13_symbols_spec (d : DFA) (n : NFA) (hd : d.WF) (hn : n.WF) :
+    (SSorted d.symbols ∧ ∀ a, a ∈ d.symbols ↔ ∃ s t, d.δ s a = some t) ∧
+    (SSorted n.symbols ∧ ∀ a, a ∈ n.symbols ↔ a ≠ E ∧ ∃ s nx, n.next s a = some nx) := by
+  refine ⟨⟨d.symbols_sorted, fun a => ?_⟩, ⟨n.symbols_sorted, fun a => ?_⟩⟩
+  · rw [d.mem_symbols_iff]
+    exact ⟨fun ⟨s, t, h⟩ => ⟨s, t, (mem_entries_DFA hd _ _ _).1 h⟩, fun ⟨s, t, h⟩ => ⟨s, t, (mem_entries_DFA hd _ _ _).2 h⟩⟩
+  · rw [n.mem_symbols_iff]
+    exact ⟨fun ⟨h0, s, nx, h⟩ => ⟨h0, s, nx, (mem_entries_NFA hn _ _ _).1 h⟩,
+      fun ⟨h0, s, nx, h⟩ => ⟨h0, s, nx, (mem_entries_NFA hn _ _ _).2 h⟩⟩
+
+example : ((DFA.new 2 [4]).add 2 98 4 |>.add 4 97 2 |>.add 4 98 4).symbols = [97, 98] ∧
+    ((NFA.new 1 [3]).add 1 98 [] |>.add 1 E [3] |>.add 3 97 [1, 3]).symbols = [97, 98] := by decide
+
+/-- `States` returns the strictly increasing list of: the start state, the final states, and every source and
+target of an entry of the table. -/
+theorem C13_states_spec (d : DFA) (n : NFA) (hd : d.WF) (hn : n.WF) :
+    (SSorted d.states ∧
+      ∀ x, x ∈ d.states ↔ x = d.start ∨ x ∈ d.final ∨ ∃ s a t, d.δ s a = some t ∧ (x = s ∨ x = t)) ∧
+    (SSorted n.states ∧
+      ∀ x, x ∈ n.states ↔ x = n.start ∨ x ∈ n.final ∨ ∃ s a nx, n.next s a = some nx ∧ (x = s ∨ x ∈ nx)) := by
+  refine ⟨⟨d.states_sorted, fun x => ?_⟩, ⟨n.states_sorted, fun x => ?_⟩⟩
+  · rw [d.mem_states_iff]
+    constructor
+    · rintro (h | h | ⟨s, a, t, h, hx⟩)
+      · exact Or.inl h
+      · exact Or.inr (Or.inl h)
+      · exact Or.inr (Or.inr ⟨s, a, t, (mem_entries_DFA hd _ _ _).1 h, hx⟩)
+    · rintro (h | h | ⟨s, a, t, h, hx⟩)
+      · exact Or.inl h
+      · exact Or.inr (Or.inl h)
+      · exact Or.inr (Or.inr ⟨s, a, t, (mem_entries_DFA hd _ _ _).2 h, hx⟩)
+  · rw [n.mem_states_iff]
+    constructor
+    · rintro (h | h | ⟨s, a, nx, h, hx⟩)
+      · exact Or.inl h
+      · exact Or.inr (Or.inl h)
+      · exact Or.inr (Or.inr ⟨s, a, nx, (mem_entries_NFA hn _ _ _).1 h, hx⟩)
+    · rintro (h | h | ⟨s, a, nx, h, hx⟩)
+      · exact Or.inl h
+      · exact Or.inr (Or.inl h)
+      · exact Or.inr (Or.inr ⟨s, a, nx, (mem_entries_NFA hn _ _ _).2 h, hx⟩)
+
+example : ((NFA.new 7 [3]).add 1 98 [] |>.add 1 E [3] |>.add 3 97 [9, 3]).states = [1, 3, 7, 9] := by decide
+
+/-- The exported `NFA.Next(s, a)` returns exactly the targets of the transition relation `Δ` the language of the NFA
+is defined from (`nil` = `none` when the table has no entry); on an automaton made with `NewNFA` it is `nil`
+everywhere, and `Add(s', a', nx)` changes it at `(s', a')` only, to the sorted union of the old targets and `nx`. -/
+theorem C13_nfa_next_spec (n : NFA) (s a : Int) :
+    (∀ t, (∃ nx, n.nextPub s a = some nx ∧ t ∈ nx) ↔ n.Δ s a t) ∧
+    (∀ st f, (NFA.new st f).nextPub s a = none) ∧
+    (∀ s' a' l, (n.add s' a' l).nextPub s a =
+      if s = s' ∧ a = a' then some (saddAll ((n.nextPub s' a').getD []) l) else n.nextPub s a) := by
+  refine ⟨fun t => ?_, fun st f => ?_, fun s' a' l => ?_⟩
+  · rw [n.nextPub_eq]; exact Iff.rfl
+  · rw [NFA.nextPub_eq, NFA.next_new]
+  · simp only [NFA.nextPub_eq, NFA.next_add]
+
+/-- the slice `Next` returns is strictly increasing on every NFA made with `NewNFA` and `Add` -/
+theorem C13_nfa_next_sorted :
+    (∀ st f, (NFA.new st f).TSorted) ∧ (∀ (n : NFA) s a l, n.TSorted → (n.add s a l).TSorted) ∧
+    (∀ (n : NFA) s a nx, n.TSorted → n.nextPub s a = some nx → SSorted nx) :=
+  ⟨NFA.TSorted_new, fun _ s a l h => NFA.TSorted_add h s a l, fun n s a nx h hn => h s a nx (by rw [← n.nextPub_eq]; exact hn)⟩
+
+example : ((NFA.new 1 [3]).add 1 98 [] |>.add 3 97 [3, 1] |>.add 3 97 [2]).nextPub 3 97 = some [1, 2, 3] ∧
+    ((NFA.new 1 [3]).add 1 98 []).nextPub 1 98 = some [] ∧ ((NFA.new 1 [3]).add 1 98 []).nextPub 1 97 = none := by decide
+
+/-- `DFA.Next(s, a)` is the transition function with `-1` for "no transition"; `-1` everywhere after `NewDFA`, and
+`Add(s', a', t)` overwrites the entry `(s', a')` only. -/
+theorem C13_dfa_next_spec (d : DFA) (s a : Int) :
+    d.next s a = (d.δ s a).getD (-1) ∧
+    (∀ st f, (DFA.new st f).next s a = -1) ∧
+    (∀ s' a' t, (d.add s' a' t).next s a = if s = s' ∧ a = a' then t else d.next s a) := by
+  refine ⟨d.next_eq s a, fun st f => ?_, fun s' a' t => ?_⟩
+  · rw [DFA.next_eq, DFA.δ_new]; rfl
+  · simp only [DFA.next_eq, DFA.δ_add]; split <;> rfl
+
+example : ((DFA.new 2 [4]).add 2 97 4 |>.add 2 97 6).next 2 97 = 6 ∧ ((DFA.new 2 [4]).add 2 97 4).next 2 98 = -1 := by decide
+
+/-- `Transitions()` is a range-over-func iterator: two nested loops over the table that `return` as soon as the
+consumer's `yield` answers false.  For EVERY consumer (state `σ`, body `yield`) running it is the same as one
+`for … { … break … }` loop (`Spec.foldUntil`) over the entries of the table in iteration order — nothing is
+yielded after the consumer stopped, nothing is skipped before. -/
+theorem C13_transitions_iter {σ : Type} (d : DFA) (n : NFA)
+    (yd : σ → Int × Int × Int → σ × Bool) (yn : σ → Int × Int × List Int → σ × Bool) (init : σ) :
+    d.transitionsIter yd init = foldUntil yd (entries d.trans) init ∧
+    n.transitionsIter yn init = foldUntil yn (entries n.trans) init :=
+  ⟨iterOuter_eq yd d.trans init, iterOuter_eq yn n.trans init⟩
+
+/-- a consumer that breaks after `k` transitions (the op `trans X k` of the harness) gets the first `k` entries, and
+the entries are exactly the transitions: `(s, a, t)` is yielded iff `δ s a = some t` (DFA), `(s, a, nx)` iff
+`next s a = some nx` (NFA). -/
+theorem C13_transitions_prefix (d : DFA) (n : NFA) (hd : d.WF) (hn : n.WF) (k : Nat) :
+    d.transPrefix k = (entries d.trans).take k ∧ n.transPrefix k = (entries n.trans).take k ∧
+    (∀ s a t, (s, a, t) ∈ d.transPrefix (entries d.trans).length ↔ d.δ s a = some t) ∧
+    (∀ s a nx, (s, a, nx) ∈ n.transPrefix (entries n.trans).length ↔ n.next s a = some nx) := by
+  refine ⟨d.transPrefix_eq k, n.transPrefix_eq k, fun s a t => ?_, fun s a nx => ?_⟩
+  · rw [d.transPrefix_eq, List.take_length]; exact mem_entries_DFA hd s a t
+  · rw [n.transPrefix_eq, List.take_length]; exact mem_entries_NFA hn s a nx
+
+example : ((DFA.new 2 [4]).add 4 98 2 |>.add 2 97 4 |>.add 4 97 4).transPrefix 2 = [(2, 97, 4), (4, 97, 4)] ∧
+    ((NFA.new 1 [3]).add 3 98 [3, 1] |>.add 1 98 [] |>.add 1 E [3]).transPrefix 0 = [] ∧
+    ((NFA.new 1 [3]).add 3 98 [3, 1] |>.add 1 98 [] |>.add 1 E [3]).transPrefix 5 = [(1, 0, [3]), (1, 98, []), (3, 98, [1, 3])] := by
+  decide
